@@ -210,6 +210,10 @@ def run(ctx: Ctx, rep: Report, tier: str):
     from rules.common import entry_paths_match_for_display
     rep.rule("C03.R16", "a case-only rename is a change: SyncEntry.paths_match compares sync_path with path through paths_match(..., for_display=True)", 1)
     section(rep, lambda: entry_paths_match_for_display(ctx, rep, "C03.R16"))
+    from rules.common import sort_key_takes_latest_stamp as _sk
+    rep.rule("C03.R17", "changes are mirrored oldest first (C17.A17): the selection key is (priority, the later of the two sides' stamps) - a folder rename reaches the peer before "
+             "what was created inside the renamed folder", 1)
+    section(rep, lambda: _sk(ctx, rep, "C03.R17"))
     from rules.decisions import decision_table, table_sites
     rep.rule("C03.DT", "decision table (rules/decisions.json) of rename handling, the transfer functions (upload, create, download, temp files) and child re-basing: for every function and every action shape (an impure call with the parameters it passes, a store to an "
              "attribute or item, a delete, a returned constant, a yield, a raise) the set of states - over the function's guard atoms - in which the action is taken "
